@@ -56,6 +56,12 @@ def run(ctx):
     ctx.item("C07/E2/main_with_args:input-paths-anchored", not pbad and not pund,
              "every path main_with_args probes or reads is a command-line value or os.path.join(<directory>, name)",
              confirm=lambda: ctx.monitor("m_purity", "search", 90, ctx.seed), shape=True) if not (pbad or pund) else None
+    from effects.roots import global_memos
+    gm = global_memos(REPO)
+    for b in gm:
+        ctx.item("C07/E1/global-memo:%s:%s" % (b["file"], b["function"]), False, "%s:%d %s" % (b["file"], b["line"], b["what"]))
+    ctx.item("C07/E1/no-process-lifetime-memo", not gm,
+             "no function tests and assigns a `global` name (build once, reuse in later runs)")
     fields, bad = shared_default_mutations(REPO)
     for f_ in fields:
         sites = [b for b in bad if ("Typemap.%s:" % f_) in b["what"]]
